@@ -917,7 +917,8 @@ static void run_gen(long events_per_conf, int confs_per_nuclide, uint64_t seed)
 {
   static const GenCfg G[] = {{false, "Cs137", 0, 0}, {false, "Co60", 0, 0},  {false, "Na22", 0, 0},  {false, "Am241", 0, 0},
                              {false, "Bi207", 0, 0}, {false, "K40", 0, 0},   {false, "Tl208", 0, 0}, {false, "Bi214", 0, 0},
-                             {true, "Mo100", 0, 1},  {true, "Cd106", 0, 10}, {true, "Xe136", 0, 20}};
+                             {true, "Mo100", 0, 1},  {true, "Cd106", 0, 10}, {true, "Xe136", 0, 20},
+                             {false, "Kr81", 0, 0}};   // Kr81: X-rays of zero energy (particles at rest) in a few per cent of the decays
   static const int FL[6]     = {0, 1, 2, 3, 47, 13};
   static const char * EN[3]  = {"axis", "angles", "degrees"};
   rng r(seed * 104729 + 5);
@@ -1063,6 +1064,56 @@ static void dump_bucket(std::ostream & o, const std::map<std::string, Bucket> & 
   }
 }
 
+
+// Events at the upper end of what a decay can hold (dozens of particles, all selected): every selected particle ends in the cone
+// with its magnitude, whatever their number; under ASan/UBSan (C08) any working storage sized for "a dozen particles" shows.
+static void run_many(uint64_t seed)
+{
+  rng r(seed * 7919 + 23);
+  for (int np : {17, 24, 40, 100}) {
+    for (int mode = 0; mode < 2; mode++) {
+      auto op = std::make_shared<bxdecay0::momentum_direction_lock_event_op>();   // the library's own class, exactly its size
+      const int rank = mode == 0 ? -1 : np - 1;
+      op->set(bxdecay0::GAMMA, rank, 0.3, -0.5, 0.8, 0.35, false);
+      event ev;
+      std::vector<double> mag;
+      for (int i = 0; i < np; i++) {
+        bxdecay0::particle p;
+        p.set_code(bxdecay0::GAMMA);
+        p.set_time(1e-9 * i);
+        double ct = -1.0 + 2.0 * r.u(), ph = 2.0 * M_PI * r.u(), e = 0.05 + 2.0 * r.u(), st = std::sqrt(1.0 - ct * ct);
+        p.set_momentum(e * st * std::cos(ph), e * st * std::sin(ph), e * ct);
+        mag.push_back(p.get_p());
+        ev.add_particle(p);
+      }
+      counting src(seed + np, 5000000);
+      std::ostringstream rp;
+      rp << "many np=" << np << " rank=" << rank << " seed=" << seed;
+      try {
+        (*op)(src, ev);
+      } catch (std::exception & e) {
+        add_viol(viols, "many-particles:exception", std::string("operation throws on an event of ") + std::to_string(np) + " particles: " + e.what(), rp.str());
+        continue;
+      }
+      ctr["applications"]++;
+      ctr["many_particle_events"]++;
+      const double ax[3] = {0.3, -0.5, 0.8};
+      const double an    = std::sqrt(ax[0] * ax[0] + ax[1] * ax[1] + ax[2] * ax[2]);
+      bool bad = ev.get_particles().size() != (size_t)np;
+      for (int i = 0; i < np && !bad; i++) {
+        const auto & p = ev.get_particles()[i];
+        if (!(std::fabs(p.get_p() - mag[i]) <= 1e-9 * mag[i])) bad = true;
+        if (mode == 0 || i == rank) {
+          double c = (p.get_px() * ax[0] + p.get_py() * ax[1] + p.get_pz() * ax[2]) / (p.get_p() * an);
+          if (!(c >= std::cos(0.35) - 1e-9)) bad = true;
+        }
+      }
+      if (bad) add_viol(viols, "many-particles:" + std::string(mode == 0 ? "selection" : "target"),
+                        "event of " + std::to_string(np) + " gammas: a selected particle is outside the cone, a magnitude changed or the number of particles changed", rp.str());
+    }
+  }
+}
+
 int main(int argc, char ** argv)
 {
   std::string cases_path, trace_path;
@@ -1138,6 +1189,7 @@ int main(int argc, char ** argv)
     }
     if (nrandom > 0) run_random(nrandom, seed);
     if (gen) run_gen(gen_events, gen_confs, seed);
+    run_many(seed);
     if (trace.is_open()) trace.close();
   } catch (std::exception & e) {
     std::cerr.rdbuf(old_cerr);
